@@ -32,7 +32,7 @@ class HarnessError(Exception):
     pass
 
 
-class CaseTimeout(Exception):
+class CaseTimeout(BaseException):  # not an Exception: must not be swallowed by the code under test or by a check
     pass
 
 
